@@ -1,3 +1,29 @@
 (* C17 - Sweeps enumerate exactly the documented combinations.
-   Only statements here; every proof is `exact <lemma>` into Proofs/SweepFacts.v. *)
-From Verif Require Import Base.Prelude Base.Index Model.Sweep Model.SweepSpec Proofs.SweepFacts.
+   Only statements here; every proof is `exact <lemma>` into Proofs/Sweep*.v. *)
+From Verif Require Import Base.Prelude Base.Index Model.Sweep Model.SweepSpec Proofs.IndexFacts Proofs.SweepFacts.
+
+(* len(sweep) == len(sweep.list()) for every sweep whose list() returns *)
+Theorem C17_len_eq_length : forall s l, generate s = Ok l -> len s = Ok (length l).
+Proof. exact len_eq_length. Qed.
+Print Assumptions C17_len_eq_length.
+
+(* list() is the documented list: the combination of every index vector of the zipped groups exactly once
+   (all_indices = row-major enumeration without repetition), constants added where absent, derivers applied
+   in order, excluded combinations removed; errors of user callables surface unchanged.
+   Holds whenever dims is omitted or lists its groups in item order. *)
+Theorem C17_generate_is_rowmajor_product : forall s,
+  wf_sweep s = true -> in_item_order s = true ->
+  generate s = spec_list s
+  /\ NoDup (all_indices (map (glen (items s)) (groups s)))
+  /\ length (all_indices (map (glen (items s)) (groups s))) = prod (map (glen (items s)) (groups s)).
+Proof.
+  intros s H1 H2.
+  exact (conj (generate_is_rowmajor_product s H1 H2) (conj (all_indices_NoDup _) (all_indices_length _))).
+Qed.
+Print Assumptions C17_generate_is_rowmajor_product.
+
+(* the same for every dims except a permutation of the item keys given as plain strings (there the code
+   enumerates in item order, see C17_generate_permuted) *)
+Theorem C17_generate_is_spec : forall s, wf_sweep s = true -> order_ok s -> generate s = spec_list s.
+Proof. exact generate_is_spec. Qed.
+Print Assumptions C17_generate_is_spec.
